@@ -8,13 +8,21 @@
    produces), and no field that is not [required] is called "required" — which sources CAN
    violate: that is C18_required_field_refuted, the defect reported for /repo. *)
 From Coq Require Import String List Permutation.
+Open Scope string_scope.
 From Aldrin Require Import Schema.Ast Schema.Token Schema.Printer Schema.Lexer Schema.Parser
-  Schema.ParserProofs Schema.CanonProofs Props.C18_lemmas.
+  Schema.ParserProofs Schema.CanonProofs Schema.ReachProofs Schema.LexerProofs Props.C18_lemmas.
 Import ListNotations.
 
 Theorem C18_parse_toks : forall a, wf_ast a -> parse_toks (toks a) = Some (canon a).
 Proof. exact parse_toks_toks. Qed.
 Print Assumptions C18_parse_toks.
+
+(* for every token stream that parses: the parser's own output always satisfies the other two
+   well-formedness conditions, so only the field-name condition remains *)
+Theorem C18_parse_toks_reachable : forall ts a,
+  parse_toks ts = Some a -> no_bare_required a -> parse_toks (toks a) = Some (canon a).
+Proof. exact parse_toks_reachable. Qed.
+Print Assumptions C18_parse_toks_reachable.
 
 Theorem C18_canon_idem : forall a, canon (canon a) = canon a.
 Proof. exact canon_idem. Qed.
@@ -43,6 +51,22 @@ Theorem C18_indent : forall ind a,
   (forall n, n <= 12 -> ind n = indent_real n) -> print_with ind a = print a.
 Proof. exact indent_bound. Qed.
 Print Assumptions C18_indent.
+
+(* the character level, for the parts finished (partial): what the formatter prints for a type
+   name (ASCII identifiers, decimal array lengths) lexes to exactly its token stream, and so does
+   a whole field line without its prelude.  For complete schemas [tokenize (print a) = toks a]
+   is executed by the check on every generated input, not proved. *)
+Theorem C18_print_tokens_partial : forall t, lex_ty t = true ->
+  tokenize (pr_ty t ++ ";") = (toks_ty t false ++ [TP PTerm])%list.
+Proof. exact print_tokens_ty. Qed.
+Print Assumptions C18_print_tokens_partial.
+
+Theorem C18_print_tokens_field_partial : forall name id t,
+  lex_ident name = true -> lex_uint id = true -> lex_ty t = true ->
+  tokenize (name ++ " @ " ++ id ++ " = " ++ pr_ty t ++ ";" ++ LF) =
+  (TWord name true :: TP PAt :: TInt id :: TP PEq :: toks_ty t false ++ [TP PTerm])%list.
+Proof. exact print_tokens_field. Qed.
+Print Assumptions C18_print_tokens_field_partial.
 
 (* the faithful model refutes the unconditional property: a syntactically valid source whose
    formatted text does not parse (source "struct S {required@1=u8;}") *)
